@@ -351,6 +351,101 @@ theorem parseBody_counts (rc : Str → Option Rat) (lines : List Str) (b : List 
     · simp at h0
     · exact h1
 
+/-! ### Soundness of the reader on ARBITRARY lines: nothing is invented -/
+
+/-- The row / section / group comes from lines of the text that `classify` reads so. -/
+def RowFrom (rc : Str → Option Rat) (lines : List Str) (r : Row) : Prop :=
+  ∃ l ∈ lines, classify rc l = some (.row r)
+
+def SecFrom (rc : Str → Option Rat) (lines : List Str) (sec : Section) : Prop :=
+  (∃ l ∈ lines, classify rc l = some (.title sec.path sec.cost)) ∧ ∀ r ∈ sec.rows, RowFrom rc lines r
+
+def GroupFrom (rc : Str → Option Rat) (lines : List Str) (g : Bucket × List Section) : Prop :=
+  (∃ l ∈ lines, classify rc l = some (.heading g.1 g.2.length)) ∧ ∀ sec ∈ g.2, SecFrom rc lines sec
+
+def SoundSt (rc : Str → Option Rat) (lines : List Str) (s : St) : Prop :=
+  (∀ r ∈ s.rows, RowFrom rc lines r) ∧ (∀ sec ∈ s.secs, SecFrom rc lines sec) ∧ ∀ g ∈ s.bks, GroupFrom rc lines g
+
+theorem RowFrom.mono {rc : Str → Option Rat} {lines : List Str} {r : Row} (l0 : Str) (h : RowFrom rc lines r) :
+    RowFrom rc (l0 :: lines) r := by
+  obtain ⟨l, hl, hc⟩ := h
+  exact ⟨l, List.mem_cons_of_mem _ hl, hc⟩
+
+theorem SecFrom.mono {rc : Str → Option Rat} {lines : List Str} {sec : Section} (l0 : Str) (h : SecFrom rc lines sec) :
+    SecFrom rc (l0 :: lines) sec := by
+  obtain ⟨⟨l, hl, hc⟩, hr⟩ := h
+  exact ⟨⟨l, List.mem_cons_of_mem _ hl, hc⟩, fun r hr' => (hr r hr').mono l0⟩
+
+theorem GroupFrom.mono {rc : Str → Option Rat} {lines : List Str} {g : Bucket × List Section} (l0 : Str)
+    (h : GroupFrom rc lines g) : GroupFrom rc (l0 :: lines) g := by
+  obtain ⟨⟨l, hl, hc⟩, hs⟩ := h
+  exact ⟨⟨l, List.mem_cons_of_mem _ hl, hc⟩, fun sec hsec => (hs sec hsec).mono l0⟩
+
+theorem SoundSt.mono {rc : Str → Option Rat} {lines : List Str} {s : St} (l0 : Str) (h : SoundSt rc lines s) :
+    SoundSt rc (l0 :: lines) s :=
+  ⟨fun r hr => (h.1 r hr).mono l0, fun sec hs => (h.2.1 sec hs).mono l0, fun g hg => (h.2.2 g hg).mono l0⟩
+
+theorem fold_sound (rc : Str → Option Rat) : ∀ (lines : List Str) (s : St),
+    lines.foldr (step rc) (some ⟨[], [], []⟩) = some s → SoundSt rc lines s
+  | [], s, h => by
+    simp only [List.foldr_nil, Option.some.injEq] at h
+    subst h
+    exact ⟨by simp, by simp, by simp⟩
+  | l :: t, s, h => by
+    simp only [List.foldr_cons] at h
+    cases ht : t.foldr (step rc) (some ⟨[], [], []⟩) with
+    | none => rw [ht] at h; simp [step] at h
+    | some s1 =>
+      rw [ht] at h
+      have ih := (fold_sound rc t s1 ht).mono l
+      unfold step at h
+      simp only at h
+      cases hc : classify rc l with
+      | none => rw [hc] at h; simp at h
+      | some ln =>
+        rw [hc] at h
+        cases ln with
+        | blank | header | rule | hr => simp only [Option.some.injEq] at h; subst h; exact ih
+        | row r =>
+          simp only [Option.some.injEq] at h; subst h
+          refine ⟨fun r' hr' => ?_, ih.2.1, ih.2.2⟩
+          simp only [List.mem_cons] at hr'
+          rcases hr' with rfl | hr'
+          · exact ⟨l, by simp, hc⟩
+          · exact ih.1 r' hr'
+        | title p c =>
+          simp only [Option.some.injEq] at h; subst h
+          refine ⟨by simp, fun sec hsec => ?_, ih.2.2⟩
+          simp only [List.mem_cons] at hsec
+          rcases hsec with rfl | hsec
+          · exact ⟨⟨l, by simp, hc⟩, ih.1⟩
+          · exact ih.2.1 sec hsec
+        | heading bk n =>
+          simp only at h
+          split at h
+          · rename_i hcond
+            simp only [Option.some.injEq] at h
+            subst h
+            simp only [Bool.and_eq_true, beq_iff_eq] at hcond
+            refine ⟨by simp, by simp, fun g hg => ?_⟩
+            simp only [List.mem_cons] at hg
+            rcases hg with rfl | hg
+            · exact ⟨⟨l, by simp, by rw [hc, hcond.2]⟩, ih.2.1⟩
+            · exact ih.2.2 g hg
+          · simp at h
+
+theorem parseBody_sound (rc : Str → Option Rat) (lines : List Str) (b : List (Bucket × List Section))
+    (h : parseBody rc lines = some b) : ∀ g ∈ b, GroupFrom rc lines g := by
+  unfold parseBody at h
+  cases hf : lines.foldr (step rc) (some ⟨[], [], []⟩) with
+  | none => rw [hf] at h; simp at h
+  | some s =>
+    rw [hf] at h
+    obtain ⟨rows, secs, bks⟩ := s
+    cases rows <;> cases secs <;> simp at h
+    subst h
+    exact (fold_sound rc lines _ hf).2.2
+
 /-! ### From the lines to the text: `"\n".join` / `split("\n")`, and no line of the model contains a newline -/
 
 theorem splitLines_noNl : ∀ a : Str, '\n' ∉ a → splitLines a = [a]
